@@ -550,12 +550,7 @@ def case_script(case):
 
 def campaign(ctx):
     n = {"quick": 350, "thorough": 6000}[ctx.tier]
-    if ctx.widx == 0:
-        ctx.evaluations += 1
-        probs = runner.guarded(run_case)(ctx, max_files_case())
-        probs = [pr for pr in probs if not ctx.known.match(pr)]
-        if probs:
-            ctx.failures.append({"case": max_files_case(), "problems": probs, "label": "max_files"})
+    # the NC_MAX_NFILES+1 case runs on every invocation as the regression replay replays/C17/max-files.json
     runner.run_hypothesis(ctx, case_strategy(ctx.tier), runner.guarded(run_case), n)
 
 
